@@ -217,6 +217,8 @@ def subst_candidates(n):
                     continue
                 if any(isinstance(x, ast.NamedExpr | ast.Yield | ast.YieldFrom | ast.Await | ast.Lambda) for x in ast.walk(a.value)):
                     continue
+                if isinstance(a.value, ast.IfExp):
+                    continue  # `v = A if c else B; stmt(v)` is split into if/else twins by the normaliser (inline.py), not folded in
                 for use in reads.get(v, []):
                     sl = subst_slot(b, use, a.value, scoped)
                     if sl is not None:
